@@ -22,72 +22,107 @@ def tool(name):
     return os.path.join(sysroot, 'lib', 'rustlib', 'x86_64-unknown-linux-gnu', 'bin', name)
 
 
-def main(ids):
-    report_only = '--report-only' in ids
-    ids = [i for i in ids if not i.startswith('--')] or ['C%02d' % i for i in range(1, 21)]
-    if not report_only:
-        shutil.rmtree(COV, ignore_errors=True)
-    os.makedirs(COV, exist_ok=True)
-    os.makedirs(OUT, exist_ok=True)
-    env = dict(os.environ, VERIF_COV=COV)
-    lines = []
-    for c in ([] if report_only else ids):
-        p = subprocess.run([os.path.join(HERE, 'check'), c, '--tier', 'quick'], env=env, stdout=subprocess.PIPE, stderr=subprocess.STDOUT, text=True)
-        last = p.stdout.strip().splitlines()[-1] if p.stdout.strip() else ''
-        print(c, 'rc=%d' % p.returncode, last[:200], flush=True)
-        lines.append((c, p.returncode, last))
-    subprocess.run(['git', 'checkout', '--', 'evidence'], cwd=HERE)
-    raws = glob.glob(os.path.join(COV, '*.profraw'))
-    prof = os.path.join(COV, 'merged.profdata')
-    with open(os.path.join(COV, 'files.txt'), 'w') as f:
-        f.write('\n'.join(raws))
-    subprocess.run([tool('llvm-profdata'), 'merge', '-sparse', '--failure-mode=all', '-f', os.path.join(COV, 'files.txt'), '-o', prof], check=False)
+def objects():
     tdir = os.environ.get('VERIF_TARGET') or os.path.join(HERE, '.target')
     objs = []
     for pat in ('cov/debug/shard*', 'libmon_cov/release/c1*', 'cov/debug/deps/libascent_macro-*.so'):
         for o in glob.glob(os.path.join(tdir, pat)):
             if os.path.isfile(o) and os.access(o, os.X_OK) and not o.endswith('.d'):
                 objs.append(o)
-    args = []
-    for o in objs:
+    return objs
+
+
+def harvest(covdir, lines_acc, funcs_acc):
+    """merge the profiles of one check and read them against the binaries that check has just built (the next check overwrites
+    them); accumulates per-line and per-function execution counts"""
+    raws = glob.glob(os.path.join(covdir, '*.profraw'))
+    if not raws:
+        return 0, 0
+    prof = os.path.join(covdir, 'merged.profdata')
+    with open(os.path.join(covdir, 'files.txt'), 'w') as f:
+        f.write('\n'.join(raws))
+    subprocess.run([tool('llvm-profdata'), 'merge', '-sparse', '--failure-mode=all', '-f', os.path.join(covdir, 'files.txt'), '-o', prof],
+                   stdout=subprocess.DEVNULL, stderr=subprocess.DEVNULL)
+    objs = objects()
+    args = [objs[0]]
+    for o in objs[1:]:
         args += ['-object', o]
-    exp = subprocess.run([tool('llvm-cov'), 'export', '-instr-profile', prof, '-ignore-filename-regex', r'(\.cargo|rustc|/verif/)'] + args[1:2] + args[2:],
+    exp = subprocess.run([tool('llvm-cov'), 'export', '-format=lcov', '-instr-profile', prof, '-ignore-filename-regex', r'(\.cargo|rustc|/verif/)'] + args,
                          stdout=subprocess.PIPE, stderr=subprocess.PIPE, text=True)
     if exp.returncode != 0:
-        print(exp.stderr[-2000:])
-        return 1
-    data = json.loads(exp.stdout)['data'][0]
+        print('llvm-cov failed:', exp.stderr[-500:])
+        return len(raws), len(objs)
+    cur = None
+    fnline = {}
+    for line in exp.stdout.splitlines():
+        if line.startswith('SF:'):
+            cur = line[3:]
+            fnline = {}
+        elif cur and cur.startswith('/repo/'):
+            if line.startswith('FN:'):
+                ln, name = line[3:].split(',', 1)
+                fnline[name] = int(ln)
+            elif line.startswith('FNDA:'):
+                cnt, name = line[5:].split(',', 1)
+                k = (cur, fnline.get(name, 0))
+                prev = funcs_acc.get(k, (0, name))
+                funcs_acc[k] = (max(prev[0], int(cnt)), prev[1])
+            elif line.startswith('DA:'):
+                ln, cnt = line[3:].split(',')[:2]
+                d = lines_acc.setdefault(cur, {})
+                d[int(ln)] = max(d.get(int(ln), 0), int(cnt))
+    for r in raws:
+        os.remove(r)
+    return len(raws), len(objs)
+
+
+def main(ids):
+    report_only = False
+    ids = [i for i in ids if not i.startswith('--')] or ['C%02d' % i for i in range(1, 21)]
+    shutil.rmtree(COV, ignore_errors=True)
+    os.makedirs(COV, exist_ok=True)
+    os.makedirs(OUT, exist_ok=True)
+    lines = []
+    lines_acc, funcs_acc = {}, {}
+    nprof = 0
+    for c in ids:
+        covdir = os.path.join(COV, c)
+        env = dict(os.environ, VERIF_COV=covdir)
+        p = subprocess.run([os.path.join(HERE, 'check'), c, '--tier', 'quick'], env=env, stdout=subprocess.PIPE, stderr=subprocess.STDOUT, text=True)
+        last = p.stdout.strip().splitlines()[-1] if p.stdout.strip() else ''
+        n, nobj = harvest(covdir, lines_acc, funcs_acc)
+        nprof += n
+        print(c, 'rc=%d' % p.returncode, 'profiles=%d objects=%d' % (n, nobj), last[:160], flush=True)
+        lines.append((c, p.returncode, last))
+    subprocess.run(['git', 'checkout', '--', 'evidence'], cwd=HERE)
     files = {}
-    for f in data['files']:
-        fn = f['filename']
-        if not fn.startswith('/repo/'):
-            continue
-        s = f['summary']
-        files[fn] = {'lines': s['lines']['count'], 'lines_covered': s['lines']['covered'], 'functions': s['functions']['count'], 'functions_covered': s['functions']['covered']}
-    never = {}
-    seen = {}
-    for fu in data['functions']:
-        fns = [x for x in fu['filenames'] if x.startswith('/repo/')]
-        if not fns:
-            continue
-        key = (fns[0], fu['regions'][0][0] if fu['regions'] else 0)
-        seen[key] = max(seen.get(key, 0), fu['count'])
-        never.setdefault(key, fu['name'])
-    uncovered = sorted((k[0], k[1], never[k]) for k, c in seen.items() if c == 0)
+    for fn, d in lines_acc.items():
+        fl = [k for k in funcs_acc if k[0] == fn]
+        files[fn] = {'lines': len(d), 'lines_covered': sum(1 for v in d.values() if v > 0), 'functions': len(fl), 'functions_covered': sum(1 for k in fl if funcs_acc[k][0] > 0)}
+    uncovered = sorted((k[0], k[1], v[1]) for k, v in funcs_acc.items() if v[0] == 0)
+    unlines = {fn: sorted(l for l, v in d.items() if v == 0) for fn, d in lines_acc.items()}
     with open(os.path.join(OUT, 'REPORT.md'), 'w') as f:
         f.write('# Code of /repo reached by the quick tier of: %s\n\n' % ' '.join(ids))
-        f.write('Measured with -Cinstrument-coverage (nightly), %d process profiles merged, %d instrumented objects. Generic functions count as reached if any instantiation ran.\n\n' % (len(raws), len(objs)))
+        f.write('Measured with -Cinstrument-coverage (nightly toolchain): %d process profiles (harness processes, monitor binaries, and the rustc processes that load the '
+                'instrumented proc-macro crate), read per check against the binaries of that check and accumulated. A generic function counts as reached if any instantiation ran; '
+                'functions that are never instantiated appear as not executed. A measurement of reach, not a verdict.\n\n' % nprof)
         f.write('| check | exit | result |\n|---|---|---|\n')
         for c, rc, last in lines:
             f.write('| %s | %d | `%s` |\n' % (c, rc, last[:160]))
         f.write('\n| file | lines executed | functions executed |\n|---|---|---|\n')
         for fn in sorted(files):
-            s = files[fn]
-            f.write('| %s | %d / %d | %d / %d |\n' % (fn[6:], s['lines_covered'], s['lines'], s['functions_covered'], s['functions']))
-        f.write('\n## Functions (first line of definition) that no workload executed\n\n')
+            s_ = files[fn]
+            f.write('| %s | %d / %d | %d / %d |\n' % (fn[6:], s_['lines_covered'], s_['lines'], s_['functions_covered'], s_['functions']))
+        tot = [sum(x[k] for x in files.values()) for k in ('lines_covered', 'lines', 'functions_covered', 'functions')]
+        f.write('| **total** | %d / %d | %d / %d |\n' % tuple(tot))
+        f.write('\n## Functions (file:first line) that no workload executed\n\n')
         for fn, line, name in uncovered:
-            f.write('- %s:%d `%s`\n' % (fn[6:], line, subprocess.run(['rustfilt'], input=name, stdout=subprocess.PIPE, text=True).stdout.strip() if shutil.which('rustfilt') else name[:120]))
-    json.dump({'files': files, 'uncovered_functions': uncovered}, open(os.path.join(OUT, 'coverage.json'), 'w'), indent=1)
+            f.write('- %s:%d `%s`\n' % (fn[6:], line, name[:150]))
+        f.write('\n## Lines never executed, per file\n\n')
+        for fn in sorted(unlines):
+            if unlines[fn]:
+                f.write('- %s: %s\n' % (fn[6:], ' '.join(map(str, unlines[fn]))))
+    json.dump({'files': files, 'uncovered_functions': uncovered, 'uncovered_lines': {k[6:]: v for k, v in unlines.items()}}, open(os.path.join(OUT, 'coverage.json'), 'w'), indent=1)
     print('wrote', os.path.join(OUT, 'REPORT.md'), 'files', len(files), 'functions never executed', len(uncovered))
     return 0
 
